@@ -284,7 +284,14 @@ impl Property for C05 {
         snaps.retain(|s| *s >= 1 && *s <= ops.len());
         if !snaps.contains(&ops.len()) { snaps.push(ops.len()); }
         let summary = format!("snaps@{:?} {}", snaps, cfggen::summarize_ops(&ops));
-        let o = run(ops, snaps, plan["enc_seed"].as_u64().unwrap_or(0), plan["dec_seed"].as_u64().unwrap_or(1), plan["real_files"].as_bool().unwrap_or(true));
+        // plan-level trigger of the recorded finding CFG-S2 (ReplaceCertificate stores an unvalidated certificate): keys about
+        // certificates say whether the history contains a ReplaceCertificate at all, so that the finding cannot hide a
+        // certificate lost on a save / replay path of a history without one
+        let has_replace = ops.iter().any(|r| matches!(r.request_type, Some(sozu_command_lib::proto::command::request::RequestType::ReplaceCertificate(_))));
+        let mut o = run(ops, snaps, plan["enc_seed"].as_u64().unwrap_or(0), plan["dec_seed"].as_u64().unwrap_or(1), plan["real_files"].as_bool().unwrap_or(true));
+        for v in o.violations.iter_mut() {
+            if v.key.to_ascii_lowercase().contains("certificate") { v.key = format!("{}|{}", v.key, if has_replace { "replace_certificate_in_history" } else { "no_replace_certificate" }); }
+        }
         let mut rep = RunReport { seed: plan["seed"].as_u64().unwrap_or(0), family: plan["family"].as_str().unwrap_or("").into(), violations: o.violations, trace_hash: o.hash, summary, ..Default::default() };
         rep.nontrivial = o.nontrivial;
         rep.probes = o.probes;
